@@ -23,7 +23,7 @@ VERIF = os.path.dirname(os.path.dirname(os.path.abspath(__file__)))
 EVID = os.environ.get("UJVC_EVID") or os.path.join(VERIF, "evidence")
 CONTRACT_MODULES = [
     "retry", "times", "filestore", "stores", "engine", "prepare", "coordinator", "queues", "runphys", "runpath", "rewrite", "stale", "pruning", "system", "plumbing",
-    "argnodes", "gather", "greedy", "cycles", "completion", "misc", "tracebacks", "progress", "frames", "kahn", "lemmas", "history", "render",
+    "argnodes", "gather", "greedy", "cycles", "completion", "misc", "tracebacks", "progress", "frames", "kahn", "lemmas", "history", "render", "util",
 ]
 
 
@@ -122,7 +122,7 @@ PROPERTY_META = {}  # pid -> dict(level_text, unproved_clauses, assumptions, rep
 # refuted one as a violation of P (naming the failed obligation).
 DEPENDS = {
     "C02": ["C01", "C04"],
-    "C03": ["C01", "C02", "C04", "C05", "C09", "C18"],
+    "C03": ["C01", "C02", "C04", "C05", "C09", "C18", "C11"],
     "C05": ["C01", "C04", "C09", "C18"],
     "C06": ["C01"],
     "C08": ["C01", "C05", "C06", "C09", "C11"],
